@@ -72,3 +72,34 @@ def unhandled_type(I, args, fr):
     sub.spec = True
     sub.closure = None
     return I.E.eval_spec_in(I, transport.UNHANDLED, sub)
+
+
+# block_hashes_from(alg, F, o, bs, end): concatenation of digest(alg, F[b : min(b+bs, end)]) for the consecutive blocks
+# b = o, o+bs, ... below `end` (specification function; its native meaning is validated by harness c32)
+_bh = z3.Function("uf_block_hashes_from", smt.Int, smt.Seq, smt.Int, smt.Int, smt.Int, smt.Seq)
+_dg = z3.Function("uf_digest", smt.Int, smt.Seq, smt.Seq)
+_a, _o, _bs, _e, _x2 = z3.Ints("a_ o_ bs_ e_ x2_")
+_F = z3.Const("F_", smt.Seq)
+_p, _q, _r = z3.Consts("p_ q_ r_", smt.Seq)
+BLOCK_HASH_AXIOMS = [
+    z3.ForAll([_a, _F, _o, _bs, _e], z3.Implies(_o >= _e, _bh(_a, _F, _o, _bs, _e) == smt.sempty),
+              patterns=[_bh(_a, _F, _o, _bs, _e)]),
+    # unfold one block at o (instantiated only where the slice F[o:x] of that block occurs)
+    z3.ForAll([_a, _F, _o, _bs, _e, _x2],
+              z3.Implies(z3.And(_o < _e, _bs >= 1, _x2 == _o + z3.If(_bs <= _e - _o, _bs, _e - _o)),
+                         _bh(_a, _F, _o, _bs, _e) == smt.scat(_dg(_a, smt.sslice(_F, _o, _x2)), _bh(_a, _F, _x2, _bs, _e))),
+              patterns=[z3.MultiPattern(_bh(_a, _F, _o, _bs, _e), smt.sslice(_F, _o, _x2))]),
+    z3.ForAll([_p, _q, _r], smt.scat(smt.scat(_p, _q), _r) == smt.scat(_p, smt.scat(_q, _r)), patterns=[smt.scat(smt.scat(_p, _q), _r)]),
+    z3.ForAll([_p], smt.scat(_p, smt.sempty) == _p, patterns=[smt.scat(_p, smt.sempty)]),
+    z3.ForAll([_p], smt.scat(smt.sempty, _p) == _p, patterns=[smt.scat(smt.sempty, _p)]),
+]
+
+
+@specfuns.register("hash_id")
+def hash_id(I, args, fr):
+    """numeric id of a hash constructor value (sha1 = 1, md5 = 2), matching the ghost set by the constructor contracts"""
+    from pyvc.values import VFunc
+    v = args[0]
+    if isinstance(v, VFunc):
+        return VInt({"_hashlib.openssl_sha1": 1, "_hashlib.openssl_md5": 2}.get(v.qualname, 0))
+    return VInt(0)
